@@ -35,6 +35,17 @@ def enumerate_faults(project):
                 # whenever it notices, nothing may have been written
                 faults.append({"kind": "cover", "path": f["path"], "tail": tail})
                 break
+    if project.get("pep_ok") and not legacy.is_legacy(project["version_pattern"]):
+        for f in project["files"]:
+            if f.get("bare") or f.get("glob_group"):
+                continue
+            for raw in f["patterns"]:
+                tail = cover_tail(raw)
+                if tail is not None and "{version}" in tail:
+                    # the greedy entry comes *first* and spells the version the other way (`version = {pep440_version}` in front
+                    # of `current_version = {version}`): where the two overlap the later pattern finds nothing of its own
+                    faults.append({"kind": "cover_first", "path": f["path"], "tail": tail.replace("{version}", "{pep440_version}")})
+                    break
     if project.get("alias_pair"):
         # one real file configured under two names (a symbolic link and its target, same patterns): whichever entry comes
         # later in the config additionally names a pattern that occurs nowhere
@@ -97,9 +108,10 @@ def apply_fault(w, project, fault):
 
 
 class FaultPos:
-    def __init__(self, focus, quick, thorough):
+    def __init__(self, focus, quick, thorough, only=None):
         self.name = "FAULTPOS/" + focus
         self._quick, self._thorough = quick, thorough
+        self.only = only          # restrict the enumeration to these fault kinds
 
     def total(self, tier):
         return self._quick if tier == "quick" else self._thorough
@@ -168,7 +180,7 @@ class FaultPos:
         perms = [tuple(range(len(entries)))] + [p for p in perms if p != tuple(range(len(entries)))]
         perms = perms[:6]
 
-        def world_for(order_idx, cover_path=None, cover_pattern="{version}", alias_extra=False, cfg_break=False):
+        def world_for(order_idx, cover_path=None, cover_pattern="{version}", alias_extra=False, cfg_break=False, cover_first=False):
             perm = perms[order_idx % len(perms)]
             p2 = dict(project)
             cfg = dict(project["cfg"])
@@ -184,8 +196,12 @@ class FaultPos:
                 import fnmatch
                 hit = [k for k, v in cfg["file_patterns"] if k == cover_path or fnmatch.fnmatch(cover_path, k)]
                 # (a file whose patterns are split over two entries gets the extra pattern in the last one only)
-                cfg["file_patterns"] = [[k, (list(v) + [cover_pattern]) if (hit and k == hit[-1]) else v]
-                                        for k, v in cfg["file_patterns"]]
+                if cover_first:
+                    cfg["file_patterns"] = [[k, ([cover_pattern] + list(v)) if (hit and k == hit[0]) else v]
+                                            for k, v in cfg["file_patterns"]]
+                else:
+                    cfg["file_patterns"] = [[k, (list(v) + [cover_pattern]) if (hit and k == hit[-1]) else v]
+                                            for k, v in cfg["file_patterns"]]
             p2["cfg"] = cfg
             w = simworld.World(p2)
             w.materialise(state, text)
@@ -204,6 +220,7 @@ class FaultPos:
             return
         if case["faults"] == "all":
             plans = [{"fault": fault, "order": o, "mode": m} for fault in enumerate_faults(project)
+                     if (self.only is None or fault["kind"] in self.only)
                      for o in range(len(perms)) for m in ("update", "dry+update")]
         else:
             plans = case["faults"]
@@ -215,6 +232,8 @@ class FaultPos:
                 w = world_for(plan["order"], cfg_break=True)
             elif fault["kind"] == "cover":
                 w = world_for(plan["order"], fault["path"], fault["tail"])
+            elif fault["kind"] == "cover_first":
+                w = world_for(plan["order"], fault["path"], fault["tail"], cover_first=True)
             else:
                 w = world_for(plan["order"], fault["path"] if fault["kind"] == "break+cover" else None)
             extra = apply_fault(w, project, fault)
@@ -248,7 +267,7 @@ class FaultPos:
                 dry_failed = rd.exit_code != 0
                 if rd.changed:
                     ctx.violation("C13", "dry_changed_files", facts, "`update --dry` changed files under fault %s" % fault)
-                if rd.exit_code == 0 and fault["kind"] != "cover":
+                if rd.exit_code == 0 and fault["kind"] not in ("cover", "cover_first"):
                     ctx.violation("C06", "dry_missed_fault", facts,
                                   "`update --dry %s` exited 0 although %s" % (argv, fault))
             shim = fakevcs.VcsShim(w.repo) if w.repo else None
@@ -259,11 +278,30 @@ class FaultPos:
                 ctx.count("read_fault_not_reached")
                 continue
             ctx.fault("fs_" + fault["kind"] if fault["kind"] in ("break", "remove", "break+cover", "unreadable") else
-                      ("config_" + fault["kind"] if fault["kind"] in ("cover", "alias_extra", "cfg_break") else "version_" + fault["kind"]))
+                      ("config_" + fault["kind"] if fault["kind"] in ("cover", "cover_first", "alias_extra", "cfg_break") else "version_" + fault["kind"]))
             ctx.nontriv((runner.short_hash(project["cfg"]["file_patterns"]), runner.short_hash(fault), plan["order"], plan["mode"]))
             ctx.transition((fault["kind"], plan["mode"], res.exit_code, project["vcs"] is not None))
             detail = "fault %s order %d mode %s argv %s -> exit %s (%s)" % (
                 fault, plan["order"], plan["mode"], argv, res.exit_code, res.exc or [m for _l, _n, m in res.logs][-2:])
+            if res.exit_code == 0 and fault["kind"] == "cover_first":
+                # accepted: then every configured pattern still finds, in the file as written, a text of its own (C02: what is
+                # rendered is recognised again) - a greedy entry must not have written its spelling into another's text
+                from sim import adapter
+                ctx.count("greedy_first_pattern_accepted")
+                for f in project["files"]:
+                    content = res.after.get(f["path"], b"").decode("utf-8", "replace")
+                    for raw in f["patterns"]:
+                        if not adapter.search_pattern_finds(pattern, raw, content):
+                            ctx.violation("C02", "written_text_not_recognised", dict(facts, path=f["path"]),
+                                          "after an accepted update %r no longer holds a match of its pattern %r: %s" % (
+                                              f["path"], raw, detail))
+                            break
+                snap_cfg = res.after.get(w.syntax, b"").decode("utf-8", "replace")
+                new_ann = res.log_value("New Version: ")
+                if new_ann and new_ann not in snap_cfg:
+                    ctx.violation("C02", "written_text_not_recognised", dict(facts, path=w.syntax),
+                                  "announced %r, the config file does not show it: %s" % (new_ann, detail))
+                continue
             if res.exit_code == 0 and fault["kind"] == "cover":
                 # accepting a shadowed pattern would be a legitimate design too; the statement only speaks of updates that fail
                 ctx.count("shadowed_pattern_accepted")
